@@ -314,7 +314,15 @@ func (in *inst) Apply(i int) string {
 	case oCancel:
 		b := &in.batches[o.v]
 		b.real.Cancel()
-		b.open = false
+		// the batch object stays usable: a later Commit applies what was queued after the Cancel, and nothing of before
+		// what was cancelled stays part of the state key (an implementation may wrongly remember some of it)
+		var dropped []string
+		for k := range b.ops {
+			dropped = append(dropped, fmt.Sprintf("%x/%s", k, b.hist[k]))
+		}
+		sort.Strings(dropped)
+		b.ops = map[string]*[]byte{}
+		b.hist = map[string]string{"\xff": "cancelled:" + strings.Join(dropped, ",") + ";" + b.hist["\xff"]}
 		want = "nil"
 	}
 	if !in.check {
@@ -449,6 +457,11 @@ func (in *inst) probe(cls string) string {
 			if _, err := v.WithExtendedRealm([]byte{1}); errName(err) != "ErrStoreClosed" {
 				return fmt.Sprintf("%s|closed-WithExtendedRealm: v%d.WithExtendedRealm on a closed store returned %s", cls, vi, errName(err))
 			}
+			for _, r := range [][]byte{nil, {}} { // extending by nothing is still an operation on a closed store
+				if _, err := v.WithExtendedRealm(r); errName(err) != "ErrStoreClosed" {
+					return fmt.Sprintf("%s|closed-WithExtendedRealm: v%d.WithExtendedRealm(empty) on a closed store returned %s", cls, vi, errName(err))
+				}
+			}
 			if b, err := v.Batched(); errName(err) != "ErrStoreClosed" || b != nil {
 				return fmt.Sprintf("%s|closed-Batched: v%d.Batched on a closed store returned %s", cls, vi, errName(err))
 			}
@@ -483,7 +496,7 @@ func (in *inst) Key() string {
 			}
 		}
 		sort.Strings(bs)
-		b.WriteString("|" + strings.Join(bs, ","))
+		b.WriteString("|" + bm.hist["\xff"] + strings.Join(bs, ","))
 	}
 	return b.String()
 }
